@@ -76,6 +76,7 @@ type c16Case struct {
 	Args      []string   `json:"args"`                 // relative to the case directory; the tree is tree/
 	Missing   []string   `json:"missing,omitempty"`    // members of Args that do not exist
 	Only      *c16Fault  `json:"only,omitempty"`       // mode faults: evaluate just this fault (replays)
+	Flags     []string   `json:"flags,omitempty"`      // flags of the run (e.g. --skip-import-processing)
 }
 
 type c16Finding struct {
@@ -496,10 +497,10 @@ func c16Setup(cs *c16Case, withBad bool) (*c16Dir, error) {
 func (d *c16Dir) patchPath(name string) string { return filepath.Join(d.root, "pp", name) }
 
 func (d *c16Dir) patchArgs() []string {
+	a := append([]string{}, d.cs.Flags...)
 	if d.cs.Via == "P" {
-		return []string{"-P", d.patchPath("list.txt")}
+		return append(a, "-P", d.patchPath("list.txt"))
 	}
-	var a []string
 	for _, p := range d.cs.Patches {
 		a = append(a, "-p", d.patchPath(p.Name))
 	}
@@ -1402,6 +1403,9 @@ func c16DrawModel(rt *rapid.T) (patch, host string, ok bool) {
 
 func c16GenFaults(rt *rapid.T) *c16Case {
 	cs := &c16Case{Mode: "faults", Via: "p"}
+	if rapid.IntRange(0, 3).Draw(rt, "skipImports") == 0 {
+		cs.Flags = []string{"--skip-import-processing"}
+	}
 	n := rapid.IntRange(2, 4).Draw(rt, "nFiles")
 	names := c16DrawNames(rt, n)
 	patchKind := rapid.IntRange(0, 3).Draw(rt, "patchKind") // 0,1: cnt; 2: model; 3: both
@@ -1546,6 +1550,9 @@ func c16KindPatches(rt *rapid.T) []c16Patch {
 
 func c16GenKinds(rt *rapid.T) *c16Case {
 	cs := &c16Case{Mode: "kinds", Via: "p"}
+	if rapid.IntRange(0, 2).Draw(rt, "skipImports") == 0 {
+		cs.Flags = []string{"--skip-import-processing"} // failures must be reported whichever way the result is validated
+	}
 	n := rapid.IntRange(2, 4).Draw(rt, "nFiles")
 	names := c16DrawNames(rt, n)
 	cs.Patches = c16KindPatches(rt)
@@ -1665,6 +1672,12 @@ func c16Table() []*c16Case {
 					}
 				}
 				out = append(out, cs)
+				if via == "p" && bi < 4 {
+					// the same with --skip-import-processing (the result is validated by another code path)
+					c2 := *cs
+					c2.Flags = []string{"--skip-import-processing"}
+					out = append(out, &c2)
+				}
 			}
 		}
 	}
